@@ -109,7 +109,18 @@ class TowerSym(AbstractValue):
             return tuple(FieldSym(Poly(c.t, None)) for c in self.c)
         if name in ("one", "zero"):
             return lambda: self._mk(([1] if name == "one" else [0]) + [0] * (len(self.c) - 1))
+        if name == "degree":
+            return len(self.c)
+        if name == "field_modulus":
+            return self.p
+        if name == "modulus_coeffs":
+            return tuple(self.mc)
         raise AnalysisError(f"attribute {name} of a symbolic tower element")
+
+    def v_type(self, it):
+        if self.cls is None:
+            raise AnalysisError("type() of a symbolic tower element of no stated class")
+        return self.cls
 
     def is_zero(self):
         return all(c.is_zero() for c in self.c)
